@@ -10,7 +10,8 @@ for d in sorted(os.listdir(os.path.join(V, "seeded"))):
     mp = os.path.join(p, "meta.json")
     old = json.load(open(mp)) if os.path.exists(mp) else {}
     txt = open(n).read()
-    bullets = re.split(r"\n- ", "\n" + txt.split("\n", 1)[1] if txt.startswith("#") else txt)
+    body = txt.split("\n", 1)[1] if txt.startswith("#") else txt
+    bullets = re.split(r"\n- ", "\n" + body.lstrip("\n"))
     bullets = [" ".join(b.split()) for b in bullets if b.strip()]
     def pick(*keys):
         for b in bullets:
